@@ -491,8 +491,10 @@ def register_matrix(REG, what, prefix, asserts, quick, split, tags, extra_cfg=No
             for L in Ls:
                 if by and (n in (0, 3) or L == 4):
                     continue
+                if L == 4 and n >= 2:
+                    continue            # thorough tier: 4-instant spans on timelines with <= 1 run (the frame condition lifts n)
                 isq = quick(key, n, L, by)
-                lfixes = list(range(0, L + 1)) if split(key, n, L, by) else [None]
+                lfixes = list(range(0, L + 1)) if (split(key, n, L, by) or (L == 4 and n == 1)) else [None]
                 for lf in lfixes:
                     cfg = {"directed": directed, "pat": pat, "by": by, "n": n, "L": L, "what": what, "lfix": lf}
                     if extra_cfg:
